@@ -10,6 +10,8 @@ pub mod c09;
 pub mod c10;
 pub mod c11;
 pub mod c12;
+pub mod c13;
+pub mod srv;
 pub mod c18;
 pub mod c19;
 pub mod c20;
@@ -27,6 +29,8 @@ pub fn dispatch(prop: &str, tier: &str, seed: u64, path: Option<&str>) -> i32 {
             "C03" => c03::child(&real_tier, seed, a),
             "C04" => c04::child(&real_tier, seed, a),
             "C07" => c07::child(&real_tier, seed, a),
+            "C13" => c13::child(&real_tier, seed, a),
+            "C14" | "C15" | "C16" | "C17" => srv::child(prop, &real_tier, seed, a),
             _ => return 2,
         }
         return 0;
@@ -38,6 +42,11 @@ pub fn dispatch(prop: &str, tier: &str, seed: u64, path: Option<&str>) -> i32 {
         "C10" => c10::run(tier, seed),
         "C11" => c11::run(tier, seed),
         "C12" => c12::run(tier, seed),
+        "C13" => c13::run(tier, seed),
+        "C14" => srv::run("C14", tier, seed),
+        "C15" => srv::run("C15", tier, seed),
+        "C16" => srv::run("C16", tier, seed),
+        "C17" => srv::run("C17", tier, seed),
         "C18" => c18::run(tier, seed),
         "C19" => c19::run(tier, seed),
         "C20" => c20::run(tier, seed),
